@@ -41,6 +41,12 @@ CHECKS["C06"] = dict(
    note="Trusted: model/apply.go. Three recorded defects of FilteredApply (constant, column copy and enum ToUpper instructions ignore the filter) are attributed by model switches and printed as KNOWN-FINDING; any other discrepancy is a violation.",
    design="5/C06")
 
+CHECKS["C07"] = dict(
+   technique="bounded-exhaustive enumeration of typed expression trees (plus single-mutation invalid trees) x destinations x construction styles x contexts; interpreter reference model",
+   text="Every well-typed expression tree of depth <= 2 over columns and constants of every type, all default-context functions and two user-registered functions (depth 3 over a reduced alphabet in thorough), n-ary calls with 3-4 arguments, built both through Expr/Val and as raw nested lists, with the destination a new name, a source column or another column, on five index shapes; invalid trees by single mutation at every position. The result frame (columns, positions, types, every cell, no surviving temporary, Err exactly when the model says so) is compared with an interpreter of the statement.",
+   note="Trusted: model/expr.go interpreter and its copies of the public function package's semantics. One 4-row frame.",
+   design="5/C07")
+
 NOT_YET = {}
 BASELINE_CMD = "for m in $(cat /w/out/gomods.txt); do MF=$(cd /repo/$m && . /w/out/goenv.sh && gomodflag); (cd /repo/$m && go test $MF -json -vet=off -count=1 -timeout 25m ./...); done"
 
